@@ -32,6 +32,10 @@ def install(all_modules=True):
     if parse._ORIG_ROPE_PARSE is None:
         parse._ORIG_ROPE_PARSE = rast.parse
     rast.parse = parse.rope_ast_parse
+    import rope.base.fscommands as fsc
+
+    fsc.type = rt.sx_type  # `type(source) == bytes` dispatch in read_str_coding
+    fsc.chr = rt.sx_chr
     for m in list(sys.modules.values()):
         name = getattr(m, "__name__", "") if m is not None else ""
         if not (name == "rope" or name.startswith("rope.")):
